@@ -76,9 +76,10 @@ def main(argv=None):
         bad = 0
         for p in plist:
             res = selftest.run(p, props.load(p), record=args.record, verbose=args.v)
-            print('%s: mutants %d/%d killed (%d skipped), benign %d/%d silent' % (
+            print('%s: mutants %d/%d killed (%d skipped), benign %d/%d silent; corpora: seeds %d/%d reported, refactorings %d/%d silent (%d exit2)' % (
                 p, res['mutants_killed'], res['mutants_total'], res['mutants_skipped'],
-                res['benign_silent'], res['benign_total']))
+                res['benign_silent'], res['benign_total'], res['seeded_changes_reported'], res['seeded_changes_run'],
+                res['refactorings_silent'], res['refactorings_run'], res['refactorings_analysis_error']))
             for d in res['defects']:
                 print('   DEFECT: ' + d)
                 bad += 1
